@@ -3,15 +3,21 @@
 // The history runner brings the REAL app to a state with a history (open auctions, partially repaid cdps,
 // expired unrefunded swaps, pending committee/gov proposals and votes, non-zero precisebank remainder, synced
 // and unsynced incentive claims), then:
-//   1. ExportAppStateAndValidators on the original (A);
-//   2. every module's ValidateGenesis on the exported document;
-//   3. InitChain of a fresh app (B1) from it, commit, export again, compare the two documents module by
-//      module (JSON-normalised; expired pricefeed posts ignored, as the prose allows);
-//   4. one common follow-up block of transactions on A and on a second import (B2): per-tx result codes and all
-//      balances / positions compared (tolerance one base unit);
-//   5. every registered invariant route on B1 (after import) and B2 (after the follow-up block).
-// For precisebank, savings, swap and bep3 the exported and re-exported sections are also fed to the Lean
-// models of Model/GenesisModels.lean (validate / init / export).
+//
+//  0. a few more blocks that start with a governance-style parameter change (gov.go): a module's parameters say
+//     "off" while its store still holds the data of the time it was on;
+//  1. ExportAppStateAndValidators on the original (A), guarded by a sequential dry run (exportguard.go);
+//  2. every module's ValidateGenesis on the exported document;
+//  3. InitChain of a fresh app (B1) from it, commit, export again, compare the two documents module by
+//     module (JSON-normalised; expired pricefeed posts ignored, as the prose allows), the incentive section field
+//     by field, every Kava module store and the x/params store key by key; export twice; two imports;
+//  4. five common follow-up blocks on A and on a second import (B2), the third of which switches back on what was
+//     switched off: per-tx result codes; balances / positions after block 2 (tolerance one base unit); after block 5
+//     module account balances, total supplies and every module's genesis exported from both chains (followup.go);
+//  5. every registered invariant route on B1 (after import) and B2 (after the follow-up blocks).
+//
+// The exported and re-exported sections of thirteen modules are also fed to the Lean models of
+// Model/GenesisModels.lean and Model/GenesisMore.lean (validate / init / export): modelTies, ties.go.
 package main
 
 import (
@@ -26,6 +32,7 @@ import (
 	"time"
 
 	sdkmath "cosmossdk.io/math"
+	abci "github.com/cometbft/cometbft/abci/types"
 	sdk "github.com/cosmos/cosmos-sdk/types"
 	authtypes "github.com/cosmos/cosmos-sdk/x/auth/types"
 	banktypes "github.com/cosmos/cosmos-sdk/x/bank/types"
@@ -71,8 +78,12 @@ func main() {
 		// exports are taken at many different heights
 		plans = append(plans, history.Plan{Name: fmt.Sprintf("random-%d", i), Cfg: cf, Blocks: 25 + 14*i%160, MaxTxs: 8, PriceEvery: 4})
 	}
+	planIdx := map[string]int{}
 	for i := range plans {
 		plans[i].Seed = rng.Fork(uint64(i)).U64()
+		// the seed shifts which parameter change a plan gets, so that over the seeds every directed scenario and
+		// every random history meets every kind of change
+		planIdx[plans[i].Name] = i + int(c.Seed()%1000)*5
 	}
 	if only := os.Getenv("VERIF_ONLY_PLAN"); only != "" {
 		var sel []history.Plan
@@ -86,13 +97,17 @@ func main() {
 	var wg sync.WaitGroup
 	sem := make(chan struct{}, c.Workers())
 	for _, plan := range plans {
-		plan := plan
+		plan, idx := plan, planIdx[plan.Name]
 		wg.Add(1)
 		go func() {
 			defer wg.Done()
 			sem <- struct{}{}
 			defer func() { <-sem }()
-			runPlan(out, plan)
+			// a panic that escapes here comes from keeper code the harness calls to observe or drive a chain
+			if pm := safely(func() { runPlan(out, plan, idx) }); pm != "" {
+				out.Case(class(plan.Name)+"|harness-panic", "c14.step", plan.Name+"@plan-aborted", "observe", "fail", short(pm, 300))
+				out.Violation(fmt.Sprintf("C14 observe failed plan=%s@plan-aborted seed=%d: %s", plan.Name, plan.Seed, short(pm, 400)))
+			}
 		}()
 	}
 	wg.Wait()
@@ -106,7 +121,7 @@ func class(plan string) string {
 	return plan
 }
 
-func runPlan(out *c.Out, plan history.Plan) {
+func runPlan(out *c.Out, plan history.Plan, idx int) {
 	p := history.MakeParties()
 	prng := c.NewRng(plan.Seed ^ 0x5bd1e995)
 	// precisebank: extended-precision mints and transfers through the real keeper every few blocks, so that
@@ -139,7 +154,13 @@ func runPlan(out *c.Out, plan history.Plan) {
 			out.Note("precisebank-ops")
 		},
 	}
+	tStage := time.Now()
+	stage := func(name string) {
+		out.NoteN("ms:"+name, int(time.Since(tStage).Milliseconds()))
+		tStage = time.Now()
+	}
 	h := history.Produce(plan, hooks)
+	stage("1-history")
 	A := h.Leader
 	defer A.Close()
 	for s, n := range h.Stats {
@@ -157,14 +178,65 @@ func runPlan(out *c.Out, plan history.Plan) {
 		return
 	}
 	lastTime := h.Blocks[A.Height-1].Time
+
+	// ---- 0. governance-style parameter changes before the export (gov.go): the history lives a few blocks with a
+	// module switched off (or changed) while its store still holds the data of the time it was on
+	trigger := ""
+	if strings.HasPrefix(plan.Name, "random-") {
+		var k int
+		fmt.Sscanf(plan.Name, "random-%d", &k)
+		switch k % 12 {
+		case 9:
+			trigger = "bep3-asset-deactivated"
+		case 10:
+			trigger = "hard-market-delisted"
+		case 11:
+			trigger = "pricefeed-market-deactivated"
+		}
+	}
+	gp := makeGovPlan(idx, c.NewRng(plan.Seed^0x60f), os.Getenv("VERIF_C14_GOV"), trigger)
+	if h.Stopped == "" && os.Getenv("VERIF_C14_NOGOV") == "" {
+		grng := c.NewRng(plan.Seed ^ 0x77aa)
+		gg := history.NewGen(p, grng, A, plan.Cfg)
+		nb := 3 + grng.Intn(4)
+		for k := 0; k < nb; k++ {
+			gap := c.Pick(grng, []time.Duration{6 * time.Second, 6 * time.Second, 6 * time.Second, time.Minute, 10 * time.Minute, time.Hour})
+			b := &blockRec{Height: A.Height + 1, Time: lastTime.Add(gap)}
+			if k == 0 {
+				b.Pre = gp.off
+			}
+			if gp.Mode == "off-then-on" && k == nb-1 {
+				b.Pre = gp.on
+			}
+			if stop := genBlock(A, p, gg, b, grng.Intn(7), nil, nil, nil); stop != "" {
+				// a block that panics after a parameter change is C02's subject; nothing was committed for this height
+				out.Note("gov-block-stopped:" + gp.names() + ":" + short(stop, 80))
+				h.Stopped = stop
+				break
+			}
+			lastTime = b.Time
+		}
+		for _, a := range gp.Applied {
+			out.Note("gov:" + a.Name + ":" + gp.Mode)
+		}
+		if len(gp.Applied) == 0 {
+			out.Note("gov:none-applicable")
+		}
+	}
 	fail := func(step, detail string) {
 		out.Case(cls+"|"+step+"|fail", "c14.step", plan.Name, step, "fail", short(detail, 400))
 		out.Violation(fmt.Sprintf("C14 %s failed plan=%s seed=%d export-height=%d: %s", step, plan.Name, plan.Seed, A.Height, short(detail, 600)))
 	}
 	ok := func(step string) { out.Case(cls+"|"+step+"|ok", "c14.step", plan.Name, step, "ok", "-") }
+	govTag := gp.names() + ":" + gp.Mode
+	// from here on the history is named with what governance did to it: every case line, PREDFAIL and violation
+	// carries it (plan=<name>@<changes>:<mode>)
+	baseName := plan.Name
+	plan.Name = baseName + "@" + govTag
 
+	stage("2-gov-blocks")
 	// ---- 1. export
-	exA := A.Export()
+	exA := safeExport(A)
 	if exA.Err != "" {
 		fail("export", exA.Err)
 		return
@@ -197,7 +269,7 @@ func runPlan(out *c.Out, plan history.Plan) {
 		fail("import-commit", err.Error())
 		return
 	}
-	exB := B1.Export()
+	exB := safeExport(B1)
 	if exB.Err != "" {
 		fail("re-export", exB.Err)
 		return
@@ -205,8 +277,8 @@ func runPlan(out *c.Out, plan history.Plan) {
 	ok("re-export")
 	diffs, modules := history.CompareExports(exA, exB, lastTime)
 	if dir := os.Getenv("VERIF_DUMP"); dir != "" {
-		os.WriteFile(dir+"/"+plan.Name+".A.json", exA.AppState, 0o644)
-		os.WriteFile(dir+"/"+plan.Name+".B.json", exB.AppState, 0o644)
+		os.WriteFile(dir+"/"+baseName+".A.json", exA.AppState, 0o644)
+		os.WriteFile(dir+"/"+baseName+".B.json", exB.AppState, 0o644)
 	}
 	dm := map[string]history.ModuleDiff{}
 	for _, d := range diffs {
@@ -215,8 +287,8 @@ func runPlan(out *c.Out, plan history.Plan) {
 	for _, m := range modules {
 		if d, differs := dm[m]; differs {
 			out.Case(cls+"|"+m+"|differs", "c14.module", plan.Name, m, "0", d.Path, short(d.A, 200), short(d.B, 200))
-			out.Violation(fmt.Sprintf("C14 re-export differs module=%s path=%s original=%s imported=%s plan=%s seed=%d export-height=%d",
-				m, d.Path, short(d.A, 200), short(d.B, 200), plan.Name, plan.Seed, A.Height))
+			out.Violation(fmt.Sprintf("C14 re-export differs module=%s path=%s original=%s imported=%s plan=%s seed=%d gov=%s export-height=%d",
+				m, d.Path, short(d.A, 200), short(d.B, 200), plan.Name, plan.Seed, govTag, A.Height))
 		} else {
 			sig := ""
 			if len(exA.Modules[m]) > 400 { // non-trivial section
@@ -225,19 +297,26 @@ func runPlan(out *c.Out, plan history.Plan) {
 			out.Case(sig, "c14.module", plan.Name, m, "1", "-", "-", "-")
 		}
 	}
+	// the incentive section field by field (exact), leaving out only the hard claims that the known finding
+	// C14-export-mutates-state makes scheduling-dependent: a difference in the parameters, reward indexes, accrual times
+	// or any other claim type must not hide behind it
+	sectionCompare(out, plan, cls, govTag, "incentive", exA, exB, func(f string) bool { return f == "hard_liquidity_provider_claims" })
 	if br := history.AssertInvariants(B1, B1.CommittedCtx(lastTime)); len(br) > 0 {
 		out.Case(cls+"|inv-import|broken", "c14.invariant", plan.Name, "after-import", short(strings.Join(br, ","), 300))
-		out.Violation(fmt.Sprintf("C14 invariant broken on the imported app plan=%s seed=%d: %s", plan.Name, plan.Seed, short(strings.Join(br, " | "), 500)))
+		out.Violation(fmt.Sprintf("C14 invariant broken on the imported app plan=%s seed=%d gov=%s: %s", plan.Name, plan.Seed, govTag, short(strings.Join(br, " | "), 500)))
 	} else {
 		out.Case(cls+"|inv-import|ok", "c14.invariant", plan.Name, "after-import", "-")
 	}
 	modelTies(out, plan.Name, cls, exA, exB)
+	modelTiesMore(out, plan.Name, cls, exA, exB, lastTime)
 	storeCompare(out, plan, cls, A, B1, lastTime)
+	paramsStoreCompare(out, plan, cls, govTag, A, B1, lastTime)
 
+	stage("3-export-import-reexport-compare")
 	// ---- 3b. is the export a function of the state? (i) exporting the same node twice with no block in
 	// between must give the same document (ExportGenesis must not write), (ii) two fresh imports of the same
 	// document must export the same document.
-	exB2 := B1.Export()
+	exB2 := safeExport(B1)
 	if exB2.Err == "" {
 		if d2, _ := history.CompareExports(exB, exB2, lastTime); len(d2) > 0 {
 			out.Case(cls+"|export-twice|differs|"+d2[0].Module, "c14.step", plan.Name, "export-twice-"+d2[0].Module, "fail", short(d2[0].Path+" first="+d2[0].A+" second="+d2[0].B, 300))
@@ -249,7 +328,7 @@ func runPlan(out *c.Out, plan history.Plan) {
 	}
 	if B3, err := history.ImportNode("B3", exA, lastTime); err == nil {
 		if B3.CommitGenesis() == nil {
-			if exB3 := B3.Export(); exB3.Err == "" {
+			if exB3 := safeExport(B3); exB3.Err == "" {
 				if d3, _ := history.CompareExports(exB, exB3, lastTime); len(d3) > 0 {
 					out.Case(cls+"|export-deterministic|differs|"+d3[0].Module, "c14.step", plan.Name, "export-deterministic-"+d3[0].Module, "fail", short(d3[0].Path, 300))
 					out.Violation(fmt.Sprintf("C14 export is not deterministic: two fresh imports of the same document export different documents module=%s path=%s one=%s other=%s plan=%s seed=%d",
@@ -261,166 +340,416 @@ func runPlan(out *c.Out, plan history.Plan) {
 		}
 		B3.Close()
 	}
+	stage("4-export-twice-deterministic")
+	if h.Stopped != "" {
+		return // the original cannot run further blocks (C02's finding)
+	}
 
-	// ---- 4. common follow-up block
-	B2, err := history.ImportNode("B2", exA, lastTime)
+	// ---- 4. common follow-up blocks on the original (A) and on a second import (B2)
+	// B2 is imported from a SECOND export of the original: the first one (exA, compared above) may hold incentive's
+	// hard claims half-synced — x/hard's export rewrites them while x/incentive exports them concurrently (known finding
+	// C14-export-mutates-state) — e.g. a claim with its old reward indexes next to a deposit already carrying the settled
+	// amount, which later pays a few units too much.  After the first export the node's check state holds every synced
+	// claim, so the second document is consistent; the follow-up comparison then measures the import, not that race.
+	exA2 := safeExport(A)
+	if exA2.Err != "" {
+		exA2 = exA
+	}
+	B2, err := history.ImportNode("B2", exA2, lastTime)
 	if err != nil {
 		fail("import-2", err.Error())
 		return
 	}
 	defer B2.Close()
-	hgt := A.Height + 1
-	t := lastTime.Add(6 * time.Second)
+	stage("5-second-export-import")
 	g := history.NewGen(p, c.NewRng(plan.Seed^0x1234567), A, plan.Cfg)
 	g.Soft = true
-	resA := &history.BlockResult{Height: hgt}
-	var txs [][]byte
-	var kinds []string
-	if _, pm := A.Begin(p, hgt, t); pm != "" {
-		out.Note("followup-begin-panic:" + short(pm, 80)) // C02's business; both sides are compared below anyway
-		return
+	// Messages that fail ValidateBasic are skipped (genBlock): baseapp charges such a tx the gas accumulated on the
+	// block's context so far, which on the first block after InitChain includes all of InitGenesis (≈ 4·10^8) and
+	// exhausts the block gas meter of the imported app only — an SDK artefact of delivering a tx that CheckTx would
+	// never admit, unrelated to the exported state.
+	//
+	// block 1: 40 generated txs, then up to three CDPs carrying accumulated fees are closed (index entries written
+	//          by the import are exercised by removal)
+	// block 2: empty (the begin blockers walk the indexes the import rebuilt)
+	// block 3: what was switched off before the export is switched back on (same parameter write on both chains),
+	//          15 generated txs
+	// block 4: ten minutes later, empty: minting, reward accrual, interest of the re-activated modules
+	// block 5: 6 generated txs
+	reactivate := gp.Mode == "off-at-export" && len(gp.Applied) > 0
+	type fspec struct {
+		gap   time.Duration
+		ntx   int
+		react bool
+		close bool
 	}
-	hdr := p.Header(hgt, t)
-	nfollow := 40
-	for k := 0; k < nfollow; k++ {
-		spec := g.Next(A.Ctx(hdr))
-		// Skip messages that fail ValidateBasic: baseapp charges such a tx the gas accumulated on the block's
-		// context so far, which on the first block after InitChain includes all of InitGenesis (≈ 4·10^8) and
-		// exhausts the block gas meter of the imported app only — an SDK artefact of delivering a tx that
-		// CheckTx would never admit, unrelated to the exported state.
-		basicOK := true
-		for _, m := range spec.Msgs {
-			if m.ValidateBasic() != nil {
-				basicOK = false
+	fspecs := []fspec{{6 * time.Second, 40, false, true}, {6 * time.Second, 0, false, false}, {6 * time.Second, 15, true, false},
+		{10 * time.Minute, 0, false, false}, {6 * time.Second, 6, false, false}}
+	// positions (tolerance one base unit) are compared after block 2, i.e. after one block of transactions and one
+	// empty block: later the one unit of interest the export settled has been through liquidations, lot splits and
+	// reward payouts, and only the tolerant comparisons below apply
+	comparePositions := func(t time.Time) bool {
+		// reading the positions runs keeper code (synced deposits, pending interest) that may panic on a damaged state
+		var sa, sb map[string]string
+		if pm := safely(func() { sa = history.Snapshot(A, p, A.CommittedCtx(t)) }); pm != "" {
+			out.Note("followup-observe-panic-on-original:" + short(pm, 80))
+			return false
+		}
+		if pm := safely(func() { sb = history.Snapshot(B2, p, B2.CommittedCtx(t)) }); pm != "" {
+			fail("follow-up-observe", "reading the positions of the imported chain panics: "+pm)
+			return false
+		}
+		nviol := 0
+		for _, k := range unionKeys(sa, sb) {
+			va, vb := sa[k], sb[k]
+			if va == "" {
+				va = "0"
+			}
+			if vb == "" {
+				vb = "0"
+			}
+			kc := strings.SplitN(k, "/", 2)[0]
+			rel := "same"
+			if va != vb {
+				rel = "differs"
+				if within(va, vb, 1) {
+					rel = "within-1"
+				}
+			}
+			out.Case(kc+"|"+rel, "c14.pos", plan.Name, k, va, vb)
+			if rel == "differs" && nviol < 3 {
+				nviol++
+				out.Violation(fmt.Sprintf("C14 position differs after follow-up block 2 key=%s original=%s imported=%s plan=%s seed=%d gov=%s export-height=%d", k, va, vb, plan.Name, plan.Seed, govTag, exA.Height))
 			}
 		}
-		if !basicOK {
-			out.Note("followup-skipped-basic-invalid")
-			continue
-		}
-		bz, err := g.SignFor(A.Ctx(hdr), spec)
-		if err != nil {
-			continue
-		}
-		r, pm := A.Deliver(bz)
-		if pm != "" {
-			break
-		}
-		txs = append(txs, bz)
-		kinds = append(kinds, spec.Kind)
-		resA.Txs = append(resA.Txs, r)
+		return true
 	}
-	// close CDPs that carry accumulated fees (owner repays more than the debt, which closes the position), so
-	// that index entries written by the import are exercised by removal
+	t := lastTime
 	closed := 0
-	for _, cdp := range A.T.GetCDPKeeper().GetAllCdps(A.Ctx(hdr)) {
-		if closed >= 3 || !cdp.AccumulatedFees.IsPositive() {
-			continue
+	var blocks []*blockRec
+	var resB [][]abci.ResponseDeliverTx
+	for bi, fs := range fspecs {
+		t = t.Add(fs.gap)
+		b := &blockRec{Height: A.Height + 1, Time: t}
+		if fs.react && reactivate {
+			b.Pre = gp.on
 		}
-		owner, okp := partyByAddr(p, cdp.Owner)
-		if !okp {
-			continue
-		}
-		pay := cdp.GetTotalPrincipal().Amount.MulRaw(102).QuoRaw(100).AddRaw(10)
-		if A.T.GetBankKeeper().SpendableCoins(A.Ctx(hdr), cdp.Owner).AmountOf("usdx").LT(pay) {
-			continue
-		}
-		msg := cdptypes.NewMsgRepayDebt(cdp.Owner, cdp.Type, sdk.NewCoin("usdx", pay))
-		spec := &history.TxSpec{Kind: "cdp.close", Msgs: []sdk.Msg{&msg}, Signers: []history.Party{owner}, Desc: "cdp.close"}
-		bz, err := g.SignFor(A.Ctx(hdr), spec)
-		if err != nil {
-			continue
-		}
-		r, pm := A.Deliver(bz)
-		if pm != "" {
-			break
-		}
-		txs = append(txs, bz)
-		kinds = append(kinds, spec.Kind)
-		resA.Txs = append(resA.Txs, r)
-		if r.Code == 0 {
-			closed++
-		}
-	}
-	out.NoteN("followup-cdps-closed", closed)
-	if _, pm := A.End(hgt); pm != "" {
-		out.Note("followup-end-panic:" + short(pm, 80))
-		return
-	}
-	A.CommitBlock(hgt)
-	resB := B2.FollowUp(p, hgt, t, txs)
-	if resB.Panic != "" {
-		fail("follow-up-block", resB.Panic)
-		return
-	}
-	// one more (empty) block on both: the begin blockers walk the indexes the import rebuilt
-	t2 := t.Add(6 * time.Second)
-	ra2 := A.FollowUp(p, hgt+1, t2, nil)
-	rb2 := B2.FollowUp(p, hgt+1, t2, nil)
-	if rb2.Panic != "" && ra2.Panic == "" {
-		fail("follow-up-block-2", rb2.Panic)
-		return
-	}
-	if ra2.Panic != "" {
-		out.Note("followup-2-panic-on-original:" + short(ra2.Panic, 80))
-		return
-	}
-	t = t2
-	for k := range txs {
-		ca, cb := resA.Txs[k], resB.Txs[k]
-		same := ca.Code == cb.Code && ca.Codespace == cb.Codespace
-		sig := fmt.Sprintf("%s|%s/%d|same=%v", kinds[k], ca.Codespace, ca.Code, same)
-		out.Case(sig, "c14.tx", plan.Name, fmt.Sprint(k), kinds[k], fmt.Sprintf("%s/%d", ca.Codespace, ca.Code), fmt.Sprintf("%s/%d", cb.Codespace, cb.Code))
-		if os.Getenv("VERIF_DEBUG") != "" {
-			fmt.Printf("FOLLOWUP %s tx=%d kind=%s codeA=%d gasA=%d codeB=%d gasB=%d\n", plan.Name, k, kinds[k], ca.Code, ca.GasUsed, cb.Code, cb.GasUsed)
-		}
-		if !same {
-			out.Violation(fmt.Sprintf("C14 follow-up tx result differs kind=%s original=%s/%d imported=%s/%d plan=%s seed=%d log-original=%q log-imported=%q",
-				kinds[k], ca.Codespace, ca.Code, cb.Codespace, cb.Code, plan.Name, plan.Seed, short(ca.Log, 200), short(cb.Log, 200)))
-		}
-	}
-	sa := history.Snapshot(A, p, A.CommittedCtx(t))
-	sb := history.Snapshot(B2, p, B2.CommittedCtx(t))
-	keys := map[string]bool{}
-	for k := range sa {
-		keys[k] = true
-	}
-	for k := range sb {
-		keys[k] = true
-	}
-	var ks []string
-	for k := range keys {
-		ks = append(ks, k)
-	}
-	sort.Strings(ks)
-	nviol := 0
-	for _, k := range ks {
-		va, vb := sa[k], sb[k]
-		if va == "" {
-			va = "0"
-		}
-		if vb == "" {
-			vb = "0"
-		}
-		kc := strings.SplitN(k, "/", 2)[0]
-		rel := "same"
-		if va != vb {
-			rel = "differs"
-			if within(va, vb, 1) {
-				rel = "within-1"
+		var more func(deliver func(spec *history.TxSpec) (uint32, bool))
+		if fs.close {
+			more = func(deliver func(spec *history.TxSpec) (uint32, bool)) {
+				hdr := p.Header(b.Height, b.Time)
+				for _, cdp := range A.T.GetCDPKeeper().GetAllCdps(A.Ctx(hdr)) {
+					if closed >= 3 || !cdp.AccumulatedFees.IsPositive() {
+						continue
+					}
+					owner, okp := partyByAddr(p, cdp.Owner)
+					if !okp {
+						continue
+					}
+					pay := cdp.GetTotalPrincipal().Amount.MulRaw(102).QuoRaw(100).AddRaw(10)
+					if A.T.GetBankKeeper().SpendableCoins(A.Ctx(hdr), cdp.Owner).AmountOf("usdx").LT(pay) {
+						continue
+					}
+					msg := cdptypes.NewMsgRepayDebt(cdp.Owner, cdp.Type, sdk.NewCoin("usdx", pay))
+					spec := &history.TxSpec{Kind: "cdp.close", Msgs: []sdk.Msg{&msg}, Signers: []history.Party{owner}, Desc: "cdp.close"}
+					if code, delivered := deliver(spec); delivered && code == 0 {
+						closed++
+					}
+				}
 			}
 		}
-		out.Case(kc+"|"+rel, "c14.pos", plan.Name, k, va, vb)
-		if rel == "differs" && nviol < 3 {
-			nviol++
-			out.Violation(fmt.Sprintf("C14 position differs after the follow-up block key=%s original=%s imported=%s plan=%s seed=%d export-height=%d", k, va, vb, plan.Name, plan.Seed, A.Height-1))
+		var veto func(ctx sdk.Context, spec *history.TxSpec) bool
+		if bi > 0 {
+			dv := vetoDustCollateral(A)
+			veto = func(ctx sdk.Context, spec *history.TxSpec) bool {
+				if dv(ctx, spec) {
+					out.Note("followup-skipped-cdp-on-dust-principal")
+					return true
+				}
+				return false
+			}
+		}
+		if stop := genBlock(A, p, g, b, fs.ntx, more, func() { out.Note("followup-skipped-basic-invalid") }, veto); stop != "" {
+			out.Note(fmt.Sprintf("followup-%d-stopped-on-original:%s", bi+1, short(stop, 80))) // C02's business
+			return
+		}
+		rb, pm := replayBlock(B2, p, b)
+		if pm != "" {
+			fail(fmt.Sprintf("follow-up-block-%d", bi+1), pm)
+			return
+		}
+		blocks = append(blocks, b)
+		resB = append(resB, rb)
+		if bi == 1 && !comparePositions(t) {
+			return
 		}
 	}
+	stage("6-followup-blocks")
+	out.NoteN("followup-cdps-closed", closed)
+	if reactivate {
+		out.Note("followup-reactivated:" + gp.names())
+	}
+	for bi, b := range blocks {
+		for k := range b.Txs {
+			ca, cb := b.Res[k], resB[bi][k]
+			same := ca.Code == cb.Code && ca.Codespace == cb.Codespace
+			sig := fmt.Sprintf("%s|%s/%d|same=%v", b.Kinds[k], ca.Codespace, ca.Code, same)
+			out.Case(sig, "c14.tx", plan.Name, fmt.Sprintf("%d.%d", bi+1, k), b.Kinds[k], fmt.Sprintf("%s/%d", ca.Codespace, ca.Code), fmt.Sprintf("%s/%d", cb.Codespace, cb.Code))
+			if os.Getenv("VERIF_DEBUG") != "" {
+				fmt.Printf("FOLLOWUP %s block=%d tx=%d kind=%s codeA=%d gasA=%d codeB=%d gasB=%d\n", plan.Name, bi+1, k, b.Kinds[k], ca.Code, ca.GasUsed, cb.Code, cb.GasUsed)
+			}
+			if !same {
+				out.Violation(fmt.Sprintf("C14 follow-up tx result differs block=%d kind=%s original=%s/%d imported=%s/%d plan=%s seed=%d gov=%s log-original=%q log-imported=%q",
+					bi+1, b.Kinds[k], ca.Codespace, ca.Code, cb.Codespace, cb.Code, plan.Name, plan.Seed, govTag, short(ca.Log, 200), short(cb.Log, 200)))
+			}
+		}
+	}
+	// module accounts and total supplies (what minting, reward payouts, fee settlement leave behind)
+	ma, supa := moduleBalances(A, A.CommittedCtx(t))
+	mb, supb := moduleBalances(B2, B2.CommittedCtx(t))
+	cmpAmounts := func(cmd, what string, tol int64, a, b map[string]string) {
+		for _, k := range unionKeys(a, b) {
+			va, vb := a[k], b[k]
+			if va == "" {
+				va = "0"
+			}
+			if vb == "" {
+				vb = "0"
+			}
+			rel := "same"
+			if va != vb {
+				rel = "differs"
+				if within(va, vb, tol) {
+					rel = "within-tol"
+				}
+			}
+			out.Case(k+"|"+rel, cmd, plan.Name, k, va, vb, fmt.Sprint(tol), govTag)
+			if rel == "differs" {
+				out.Violation(fmt.Sprintf("C14 %s differs after the follow-up blocks key=%s original=%s imported=%s plan=%s seed=%d gov=%s export-height=%d", what, k, va, vb, plan.Name, plan.Seed, govTag, exA.Height))
+			}
+		}
+	}
+	cmpAmounts("c14.macc", "module account balance", maccTol, ma, mb)
+	cmpAmounts("c14.supply", "total supply", supplyTol, supa, supb)
 	if br := history.AssertInvariants(B2, B2.CommittedCtx(t)); len(br) > 0 {
 		out.Case(cls+"|inv-followup|broken", "c14.invariant", plan.Name, "after-follow-up", short(strings.Join(br, ","), 300))
-		out.Violation(fmt.Sprintf("C14 invariant broken on the imported app after the follow-up block plan=%s seed=%d: %s", plan.Name, plan.Seed, short(strings.Join(br, " | "), 500)))
+		out.Violation(fmt.Sprintf("C14 invariant broken on the imported app after the follow-up blocks plan=%s seed=%d gov=%s: %s", plan.Name, plan.Seed, govTag, short(strings.Join(br, " | "), 500)))
 	} else {
 		out.Case(cls+"|inv-followup|ok", "c14.invariant", plan.Name, "after-follow-up", "-")
+	}
+	stage("7-followup-balances-invariants")
+	// every module's genesis exported from both chains after the follow-up blocks, field by field
+	fxA, fxB := safeExport(A), safeExport(B2)
+	if fxA.Err != "" || fxB.Err != "" {
+		if fxB.Err != "" && fxA.Err == "" {
+			fail("follow-up-export", fxB.Err)
+		} else {
+			out.Note("followup-export-failed-on-original:" + short(fxA.Err, 80))
+		}
+		return
+	}
+	if dir := os.Getenv("VERIF_DUMP"); dir != "" {
+		os.WriteFile(dir+"/"+baseName+".FA.json", fxA.AppState, 0o644)
+		os.WriteFile(dir+"/"+baseName+".FB.json", fxB.AppState, 0o644)
+	}
+	followupExportCompare(out, plan, cls, govTag, fxA, fxB, t)
+	stage("8-followup-exports-compare")
+}
+
+// sectionCompare compares one module's section of two documents field by field, exactly (c14.section).
+func sectionCompare(out *c.Out, plan history.Plan, cls, govTag, m string, a, b history.Exported, skip func(field string) bool) {
+	pa, pb := sectionParts(a.Modules[m]), sectionParts(b.Modules[m])
+	fields := map[string]bool{}
+	for f := range pa {
+		fields[f] = true
+	}
+	for f := range pb {
+		fields[f] = true
+	}
+	var fs []string
+	for f := range fields {
+		fs = append(fs, f)
+	}
+	sort.Strings(fs)
+	for _, f := range fs {
+		if skip != nil && skip(f) {
+			continue
+		}
+		if path, va, vb, d := tolDiff(m+"."+f, m+"."+f, pa[f], pb[f], 0, nil); d {
+			out.Case(cls+"|"+m+"."+f+"|differs", "c14.section", plan.Name, m, f, "0", path, short(va, 160), short(vb, 160), govTag)
+			out.Violation(fmt.Sprintf("C14 section differs after import module=%s field=%s path=%s original=%s imported=%s plan=%s seed=%d gov=%s",
+				m, f, path, short(va, 160), short(vb, 160), plan.Name, plan.Seed, govTag))
+		} else {
+			out.Case(cls+"|"+m+"."+f+"|same", "c14.section", plan.Name, m, f, "1", "-", "-", "-", govTag)
+		}
+	}
+}
+
+// followupExportCompare: the documents exported from the original and from the imported chain after the common
+// follow-up blocks, module by module and field by field; numeric leaves within numTol base units (c14.fsection).
+func followupExportCompare(out *c.Out, plan history.Plan, cls, govTag string, a, b history.Exported, t time.Time) {
+	names := map[string]bool{}
+	for k := range a.Modules {
+		names[k] = true
+	}
+	for k := range b.Modules {
+		names[k] = true
+	}
+	var ms []string
+	for k := range names {
+		ms = append(ms, k)
+	}
+	sort.Strings(ms)
+	dusty := map[string]bool{}
+	dustyCollateral(a.Modules["cdp"], b.Modules["cdp"], 1_000_000, dusty)
+	for _, m := range ms {
+		pa, pb := sectionParts(a.Modules[m]), sectionParts(b.Modules[m])
+		if m == "incentive" && len(dusty) > 0 {
+			for _, f := range []string{"usdx_reward_state", "usdx_minting_claims"} {
+				neutraliseDustFactors(pa[f], dusty)
+				neutraliseDustFactors(pb[f], dusty)
+			}
+			out.Note("followup-dust-principal-factors-not-compared")
+		}
+		if m == "cdp" && len(dusty) > 0 {
+			neutraliseDustAccrual(pa["previous_accumulation_times"], dusty)
+			neutraliseDustAccrual(pb["previous_accumulation_times"], dusty)
+		}
+		if m == "pricefeed" {
+			var va, vb any
+			json.Unmarshal(a.Modules[m], &va)
+			json.Unmarshal(b.Modules[m], &vb)
+			ma, _ := livePosts(va, t).(map[string]any)
+			mb, _ := livePosts(vb, t).(map[string]any)
+			pa, pb = ma, mb
+		}
+		fields := map[string]bool{}
+		for f := range pa {
+			fields[f] = true
+		}
+		for f := range pb {
+			fields[f] = true
+		}
+		var fs []string
+		for f := range fields {
+			fs = append(fs, f)
+		}
+		sort.Strings(fs)
+		for _, f := range fs {
+			bare := m + "." + f
+			if f == "" {
+				bare = m
+			}
+			if followupSkip(bare) {
+				continue
+			}
+			if path, va, vb, d := tolDiff(bare, bare, pa[f], pb[f], numTol, followupSkip); d {
+				out.Case(cls+"|"+bare+"|differs", "c14.fsection", plan.Name, m, f, "0", path, short(va, 160), short(vb, 160), govTag)
+				out.Violation(fmt.Sprintf("C14 chains diverge after the follow-up blocks: exported genesis differs module=%s field=%s path=%s original=%s imported=%s plan=%s seed=%d gov=%s",
+					m, f, path, short(va, 160), short(vb, 160), plan.Name, plan.Seed, govTag))
+			} else {
+				sig := ""
+				if len(a.Modules[m]) > 400 {
+					sig = cls + "|" + bare + "|same"
+				}
+				out.Case(sig, "c14.fsection", plan.Name, m, f, "1", "-", "-", "-", govTag)
+			}
+		}
+	}
+}
+
+// sameParamJSON: x/params values are amino-JSON; a nil slice written by the genesis builder ("null") and the empty
+// slice a JSON round trip yields ("[]") read back as the same parameter value.
+func sameParamJSON(a, b []byte) bool {
+	var va, vb any
+	if json.Unmarshal(a, &va) != nil || json.Unmarshal(b, &vb) != nil {
+		return false
+	}
+	var norm func(v any) any
+	norm = func(v any) any {
+		switch x := v.(type) {
+		case nil:
+			return []any{}
+		case map[string]any:
+			for k, e := range x {
+				x[k] = norm(e)
+			}
+			return x
+		case []any:
+			for i, e := range x {
+				x[i] = norm(e)
+			}
+			return x
+		}
+		return v
+	}
+	ja, _ := json.Marshal(norm(va))
+	jb, _ := json.Marshal(norm(vb))
+	return string(ja) == string(jb)
+}
+
+// paramsStoreCompare: the x/params store (every module's parameter subspace) of the original and the imported app,
+// key by key, grouped by subspace (c14.store with module "params").
+func paramsStoreCompare(out *c.Out, plan history.Plan, cls, govTag string, A, B *history.Node, t time.Time) {
+	da, db := history.DumpStore(A, A.CommittedCtx(t), "params"), history.DumpStore(B, B.CommittedCtx(t), "params")
+	type agg struct {
+		n, bad int
+		first  string
+		kind   string
+	}
+	groups := map[string]*agg{}
+	sub := func(k string) string {
+		if i := strings.Index(k, "/"); i > 0 {
+			return k[:i]
+		}
+		return "-"
+	}
+	keys := map[string]bool{}
+	for k := range da {
+		keys[k] = true
+	}
+	for k := range db {
+		keys[k] = true
+	}
+	for k := range keys {
+		g := groups[sub(k)]
+		if g == nil {
+			g = &agg{}
+			groups[sub(k)] = g
+		}
+		g.n++
+		va, ina := da[k]
+		vb, inb := db[k]
+		kind := ""
+		switch {
+		case ina && !inb:
+			kind = "missing-in-import"
+		case !ina && inb:
+			kind = "extra-in-import"
+		case string(va) != string(vb) && !sameParamJSON(va, vb):
+			kind = "value-differs"
+		}
+		if kind != "" {
+			g.bad++
+			if g.first == "" || k < g.first {
+				g.first, g.kind = k, kind
+			}
+		}
+	}
+	var ss []string
+	for s := range groups {
+		ss = append(ss, s)
+	}
+	sort.Strings(ss)
+	for _, s := range ss {
+		g := groups[s]
+		if g.bad > 0 {
+			out.Case(cls+"|store|params|"+s+"|differs", "c14.store", plan.Name, "params", s, "0", g.kind, fmt.Sprint(g.bad), fmt.Sprintf("%x", g.first))
+			out.Violation(fmt.Sprintf("C14 store differs after import module=params prefix=%s kind=%s keys=%d first-key=%q original=%q imported=%q plan=%s seed=%d gov=%s",
+				s, g.kind, g.bad, g.first, clip(da[g.first]), clip(db[g.first]), plan.Name, plan.Seed, govTag))
+		} else {
+			out.Case(cls+"|store|params|"+s+"|same", "c14.store", plan.Name, "params", s, "1", "-", fmt.Sprint(g.n), "-")
+		}
 	}
 }
 
